@@ -128,7 +128,8 @@ m('c18-skip-guard', 'C18', 'utilities/multiprocessing/multiprocessing.py', "    
 m('c18-separator', 'C18', 'utilities/multiprocessing/multiprocessing.py', "input_name, input_data = line.split(':-:')", "input_name, input_data = line.split(':=:')", rule='R18.4')
 # ---- C19
 m('c19-decay', 'C19', 'radiogenics/radiogenic_models.py', "        gamma = LOG_HALF / halflife", "        gamma = LOG_HALF * halflife", rule='R19.1')
-m('c19-nusselt', 'C19', 'cooling/cooling_models.py', "              (nusselt <= 2.) * 2.", "              (nusselt <= 2.) * 1.", rule='R19')
+m('c19-nusselt', 'C19', 'cooling/cooling_models.py', "              (nusselt <= 2.) * 2.", "              (nusselt <= 2.) * 0.5", rule='R19.4')
+m('twin-c19-nusselt-floor1', 'C19', 'cooling/cooling_models.py', "              (nusselt <= 2.) * 2.", "              (nusselt <= 2.) * 1.", expect='silent')   # floor at Nu = 1: convection == conduction there, every clause of C19 still holds
 m('c19-visc-sign', 'C19', 'rheology/viscosity/viscosity_models.py', "temp_diff = (1. / temperature) - (1. / reference_temperature)", "temp_diff = (1. / reference_temperature) - (1. / temperature)", rule='R19.4')
 m('c19-revert-henning', 'C19', 'rheology/partial_melt/melting_models.py', "        (melt_fraction_shape > crit_melt_frac_plus_width) * \\\n            liquid_shear", "        (melt_fraction_shape > crit_melt_frac_plus_width) * \\\n            liquid_viscosity", rule='R19')
 m('c19-partition', 'C19', 'rheology/partial_melt/melting_models.py', "(melt_fraction_shape > 0.) * (melt_fraction_shape < crit_melt_frac) * \\\n            premelt_viscosity", "(melt_fraction_shape > 0.) * (melt_fraction_shape <= crit_melt_frac) * \\\n            premelt_viscosity", rule='R19.2')
@@ -170,3 +171,9 @@ m('c20-legacy-imag-axis', 'C20', 'utilities/math/special.py', "        z_sqrt = 
 m('c20-legacy-neg-axis', 'C20', 'utilities/math/special.py', "                 (z_i == 0.) * imag_part * 1.0j", "                 (z_i == 0.) * imag_part * -1.0j", rule='R20.5')
 m('twin-c20-legacy-half', 'C20', 'utilities/math/special.py', "real_part = np.sqrt((quad + z_r) / 2.)", "real_part = np.sqrt(0.5 * (z_r + quad))", expect='silent')
 
+m('c15-liquid-guard-real', 'C15', 'tides/multilayer/stress_strain.py', "        y4_shear   = y4 / shear\n", "        if np.real(shear) > 1.0e-40:\n            y4_shear = y4 / shear\n        else:\n            y4_shear = 0.j\n", rule='R15.2')
+m('twin-c15-y4-guard', 'C15', 'tides/multilayer/stress_strain.py', "        y4_shear   = y4 / shear\n", "        if np.abs(y4) > 0.:\n            y4_shear = y4 / shear\n        else:\n            y4_shear = 0.j\n", expect='silent')
+m('twin-c15-y4-guard-eq', 'C15', 'tides/multilayer/stress_strain.py', "        y4_shear   = y4 / shear\n", "        if y4 == 0.:\n            y4_shear = 0.j\n        else:\n            y4_shear = y4 / shear\n", expect='silent')
+m('c19-visc-floor-wrong', 'C19', 'cooling/cooling_models.py', "layer_thickness**2 / viscosity\n", "layer_thickness**2 / ((viscosity > 1.) * viscosity + (viscosity <= 1.) * 50.)\n", rule='R19.4')
+m('twin-c19-visc-floor', 'C19', 'cooling/cooling_models.py', "layer_thickness**2 / viscosity\n", "layer_thickness**2 / ((viscosity > 1.) * viscosity + (viscosity <= 1.) * 1.)\n", expect='silent')
+m('c19-dT-cap-wrong', 'C19', 'cooling/cooling_models.py', "    cooling_flux = thermal_conductivity * delta_temp / boundary_layer_thickness\n\n    return cooling_flux, boundary_layer_thickness, rayleigh, nusselt", "    cooling_flux = thermal_conductivity * ((delta_temp < 2000.) * delta_temp + (delta_temp >= 2000.) * 200.) / boundary_layer_thickness\n\n    return cooling_flux, boundary_layer_thickness, rayleigh, nusselt", rule='R19.4')
